@@ -232,7 +232,7 @@ harness! {
     }
 }
 harness! {
-    /// kind=bounded tier=thorough bound="0..=3 string pieces of <=2 bytes whose lengths sum to 1"
+    /// kind=bounded tier=quick bound="0..=3 string pieces of <=2 bytes whose lengths sum to 1"
     #[kani::unwind(6)]
     fn c20_str_concat_strs_n1(s) {
         let v = concat_strs_case::<_, 1>(s);
@@ -240,7 +240,7 @@ harness! {
     }
 }
 harness! {
-    /// kind=bounded tier=thorough bound="0..=3 string pieces of <=2 bytes whose lengths sum to 2"
+    /// kind=bounded tier=quick bound="0..=3 string pieces of <=2 bytes whose lengths sum to 2"
     #[kani::unwind(6)]
     fn c20_str_concat_strs_n2(s) {
         let v = concat_strs_case::<_, 2>(s);
@@ -248,7 +248,7 @@ harness! {
     }
 }
 harness! {
-    /// kind=bounded tier=thorough bound="0..=3 string pieces of <=2 bytes whose lengths sum to 4"
+    /// kind=bounded tier=quick bound="0..=3 string pieces of <=2 bytes whose lengths sum to 4"
     #[kani::unwind(7)]
     fn c20_str_concat_strs_n4(s) {
         let v = concat_strs_case::<_, 4>(s);
@@ -256,7 +256,7 @@ harness! {
     }
 }
 harness! {
-    /// kind=bounded tier=thorough bound="0..=3 string pieces of <=2 bytes whose lengths sum to 5"
+    /// kind=bounded tier=quick bound="0..=3 string pieces of <=2 bytes whose lengths sum to 5"
     #[kani::unwind(8)]
     fn c20_str_concat_strs_n5(s) {
         let v = concat_strs_case::<_, 5>(s);
@@ -294,7 +294,7 @@ harness! {
     }
 }
 harness! {
-    /// kind=bounded tier=thorough bound="0..=3 char elements (any chars) whose UTF-8 lengths sum to 12: three 4-byte chars"
+    /// kind=bounded tier=quick bound="0..=3 char elements (any chars) whose UTF-8 lengths sum to 12: three 4-byte chars"
     #[kani::unwind(15)]
     fn c20_str_concat_chars_n12(s) {
         let v = concat_chars_case::<_, 12>(s);
@@ -302,7 +302,7 @@ harness! {
     }
 }
 harness! {
-    /// kind=bounded tier=thorough bound="0..=3 char elements (any chars) whose UTF-8 lengths sum to 6"
+    /// kind=bounded tier=quick bound="0..=3 char elements (any chars) whose UTF-8 lengths sum to 6"
     #[kani::unwind(9)]
     fn c20_str_concat_chars_n6(s) {
         let v = concat_chars_case::<_, 6>(s);
@@ -344,7 +344,7 @@ harness! {
     }
 }
 harness! {
-    /// kind=bounded tier=thorough bound="0..=3 string pieces of <=2 bytes, &str separator of <=2 bytes, joined length 6"
+    /// kind=bounded tier=quick bound="0..=3 string pieces of <=2 bytes, &str separator of <=2 bytes, joined length 6"
     #[kani::unwind(9)]
     fn c20_str_join_strsep_n6(s) {
         let v = join_case::<_, 6>(s, false);
@@ -426,7 +426,7 @@ harness! {
     }
 }
 harness! {
-    /// kind=bounded tier=thorough bound="0..=3 slices of <=2 u16 elements whose lengths sum to 2 (leading empty slices before the first element)"
+    /// kind=bounded tier=quick bound="0..=3 slices of <=2 u16 elements whose lengths sum to 2 (leading empty slices before the first element)"
     #[kani::unwind(6)]
     fn c20_slice_concat_n2(s) {
         let v = slice_concat_case::<_, 2>(s);
@@ -490,7 +490,7 @@ harness! {
 }
 
 harness! {
-    /// kind=bounded tier=thorough bound="every byte string of length 0..=9, all byte values (std's word-at-a-time memchr path, which needs >= 16 bytes, is not reached)"
+    /// kind=bounded tier=quick bound="every byte string of length 0..=9, all byte values (std's word-at-a-time memchr path, which needs >= 16 bytes, is not reached)"
     #[kani::unwind(13)]
     fn c20_cstr_constructors_big(s) {
         let (raw, len, until_ok, with_ok) = cstr_constructors_case::<_, 9>(s);
@@ -573,7 +573,7 @@ fn fixed<'a, S: Src, const L: usize>(s: &mut S, buf: &'a mut [u8; L]) -> &'a str
 }
 
 harness! {
-    /// kind=bounded tier=thorough bound="spec adequacy: ref_concat vs <[&str]>::concat, 0..=2 pieces of <=2 bytes (any valid UTF-8)"
+    /// kind=bounded tier=quick bound="spec adequacy: ref_concat vs <[&str]>::concat, 0..=2 pieces of <=2 bytes (any valid UTF-8)"
     #[kani::unwind(8)]
     fn c20_spec_concat_vs_std(s) {
         let (a, b) = (BStr::<2>::any(s), BStr::<2>::any(s));
@@ -598,7 +598,7 @@ harness! {
 }
 
 harness! {
-    /// kind=bounded tier=thorough bound="spec adequacy: ref_join vs <[&str]>::join on concrete shapes with symbolic contents: pieces (2,0,1) with a 2-byte separator, (1,2) with an empty separator, (0,0,0) with a 1-byte separator, (2) and () with a 2-byte separator"
+    /// kind=bounded tier=quick bound="spec adequacy: ref_join vs <[&str]>::join on concrete shapes with symbolic contents: pieces (2,0,1) with a 2-byte separator, (1,2) with an empty separator, (0,0,0) with a 1-byte separator, (2) and () with a 2-byte separator"
     #[kani::unwind(10)]
     fn c20_spec_join_vs_std(s) {
         let (mut b0, mut b1, mut b2, mut e0, mut e1, mut e2) = ([0u8; 0], [0u8; 1], [0u8; 2], [0u8; 0], [0u8; 1], [0u8; 2]);
